@@ -200,6 +200,22 @@ CHECKS = {
              "objects of the interrupted session are not examined.",
         tech=TECH % (", crash points", "exhaustive crash-prefix enumeration over the write log, differential oracle against the base file"),
     ),
+    "C20": dict(
+        profile="limits", cat="exploration", ref="DESIGN.md section 4 C20, section 8",
+        text="Seeded histories of 8..30 probes around each limit, in random order and amounts, against files that also "
+             "hold canary objects: sparse never-written elements and linked-block elements whose offsets/lengths approach "
+             "and cross 2^31-1 (simulated sparse disk), writes at their far end, small elements behind them; ref 65535 "
+             "followed by Hnewref/Htagnewref, all 65535 refs of a tag in use; Vgroups filled to 65534..65540 members; "
+             "field orders/sizes around 65535, 254..259 fields, record sizes around 65535; names of 63..70000 "
+             "characters through ten interfaces with canaried get-buffers; SDS ranks 31..34 and shapes whose byte size "
+             "crosses 2^31 and 2^32; 30..40 open files, SDstart of one file up to a small descriptor limit (getrlimit "
+             "seam). Oracle: failure value where the format cannot represent the request, correct read-back where "
+             "accepted, canaries intact after every probe, descriptor tables without negative/wrapped/overlapping "
+             "extents (sparse page-wise scan + format reader), files usable after reopen, ASan. 3 000 / 60 000.",
+        note="Requests above a documented maximum of the library (not of the format) may be accepted when they then "
+             "behave correctly; a name longer than an interface keeps is either refused or stored as a prefix.",
+        tech=TECH % ("", "oracle = failure-value table per limit + read-back + canary objects + sparse descriptor scan + sanitizer"),
+    ),
 }
 
 NOT_APPLICABLE = {
@@ -213,7 +229,7 @@ NOT_APPLICABLE = {
 PENDING = {
     "C03": "sdarray", "C07": "vdata", "C08": "vgroup",
     "C09": "raster", "C10": "attrs", "C11": "annot", "C12": "ddmap", "C13": "handles", "C14": "readonly",
-    "C16": "iofault", "C17": "crash", "C20": "limits",
+    "C16": "iofault", "C17": "crash",
 }
 
 
